@@ -29,6 +29,10 @@ func (c *Ctx) Thorough() bool { return c.Tier == "thorough" }
 var props = map[string]func(*Ctx){}
 
 func main() {
+	if len(os.Args) > 1 && os.Args[1] == "corpusdump" {
+		corpusDumpMain(os.Args[2:])
+		return
+	}
 	if len(os.Args) > 1 && os.Args[1] == "dump" {
 		dumpMain(os.Args[2:])
 		return
